@@ -16,6 +16,7 @@ import (
 	"regexp"
 	"sort"
 	"strings"
+	"syscall"
 	"time"
 
 	"wa-lang.org/wa/api"
@@ -280,19 +281,28 @@ func cmdCrash(only string, limit time.Duration) {
 		t0    time.Time
 	}
 	state := make(chan cur, 1)
-	// watchdog: a case that does not return within the limit ends the process with a HANG record
+	// watchdog: a call that has burnt `limit` of CPU time without returning (a busy loop), or has not returned after 12 x limit of
+	// wall time (blocked), ends the process with a HANG record. CPU time, not wall time, decides the common case: on a loaded
+	// machine a call that needs milliseconds can be kept off the processor for seconds.
+	cpuNow := func() time.Duration {
+		var ru syscall.Rusage
+		syscall.Getrusage(syscall.RUSAGE_SELF, &ru)
+		return time.Duration(ru.Utime.Nano() + ru.Stime.Nano())
+	}
 	go func() {
 		var c cur
+		var cpu0 time.Duration
 		tick := time.NewTicker(50 * time.Millisecond)
 		for {
 			select {
 			case c = <-state:
+				cpu0 = cpuNow()
 			case <-tick.C:
 				lim := limit
 				if c.entry == "api.BuildFile" {
 					lim = 6 * limit // a text that parses is compiled together with the runtime library
 				}
-				if c.entry != "" && time.Since(c.t0) > lim {
+				if c.entry != "" && (cpuNow()-cpu0 > lim || time.Since(c.t0) > 12*lim) {
 					b, _ := json.Marshal(CrashRes{ID: c.id, Entry: c.entry, Outcome: "hang", Micros: int64(time.Since(c.t0) / time.Microsecond)})
 					os.Stdout.Write(append(b, '\n'))
 					os.Exit(3)
